@@ -809,6 +809,22 @@ def parse_value_argv(repo, env):
     return rows
 
 
+def parse_fpoint_consume(repo, env):
+    """mptplot/values/fpoint_set.c: the target type codes of the mpt_iterator_consume calls of mpt_fpoint_set and whether
+    each stores directly into a float member (`&tmp.x`)"""
+    fn = function_def(repo, "mptplot/values/fpoint_set.c", "mpt_fpoint_set")
+    out = []
+    for n in walk(fn):
+        if n.get("kind") == "CallExpr" and mentions(kids(n)[0], "mpt_iterator_consume"):
+            ks = kids(n)
+            code, _ = const_eval(ks[2], env)
+            direct = any(x.get("kind") == "MemberExpr" and x.get("name") in ("x", "y") for x in walk(ks[3]))
+            out.append((code, direct))
+    if len(out) != 2:
+        fail("mpt_fpoint_set: expected two calls of mpt_iterator_consume, found %d" % len(out), fn)
+    return out
+
+
 def extract_convint(repo):
     env = enum_constants(repo, "mptcore/convert/data_convert_int.c")
     for need in ("MPT__TypeVectorBase", "MPT__TypeVectorMax", "MPT__TypeScalarBase", "MPT__TypeScalarMax"):
@@ -823,7 +839,8 @@ def extract_convint(repo):
     for code, fname in disp:
         if fname not in names:
             fail("dispatch target %s of type %d is not a translated converter" % (fname, code))
-    return {"functions": fns, "dispatch": disp, "type_int": type_int, "type_uint": type_uint, "argv": parse_value_argv(repo, env)}
+    return {"functions": fns, "dispatch": disp, "type_int": type_int, "type_uint": type_uint, "argv": parse_value_argv(repo, env),
+            "fpoint": parse_fpoint_consume(repo, env)}
 
 
 # --------------------------------------------------------------------------------------- text parsers (C07)
@@ -1836,6 +1853,8 @@ def emit_convint(data):
     L.append("")
     L.append("/-- `mpt_value_argv`: type code -> (type stored, type fetched with va_arg, size reported) -/")
     L.append("def argvTable : List (Nat × CTy × CTy × Nat) := [%s]" % ", ".join("(%d, .%s, .%s, %d)" % r for r in data["argv"]))
+    L.append("/-- `mpt_fpoint_set`: target code of each `mpt_iterator_consume` call, and whether it stores straight into the float member -/")
+    L.append("def fpointConsume : List (Nat × Bool) := [%s]" % ", ".join("(%d, %s)" % (c, "true" if d else "false") for c, d in data["fpoint"]))
     L.append("")
     L.append("end Mpt.Generated")
     return "\n".join(L) + "\n"
